@@ -1,7 +1,8 @@
 (** C15 — IR nodes obey structural laws.  Property theorems only, each closed by [exact] of a lemma of
     Mx.ExprProofs about the model Mx.Expr (tied to expression.py by the exprlaws correspondence). *)
 From Coq Require Import ZArith List Bool String.
-From Mx Require Import Expr ExprProofs.
+From Mx Require Import Expr ExprProofs Simp SimpProofs CanonProofs.
+Import ListNotations.
 Open Scope Z_scope.
 
 (** equality (the per-class __eq__ methods) is an equivalence on ALL trees *)
@@ -51,3 +52,16 @@ Theorem C15_replace_congruence : forall rho mu iota d,
   forall e, size (replace_expr d e) = size e /\ eval rho mu iota (replace_expr d e) = eval rho mu iota e.
 Proof. exact replace_congruence. Qed.
 Print Assumptions C15_replace_congruence.
+
+(** canonize(): on well-formed trees of fragment 1 (operands of the commutative-associative operators have one width) sorting
+    the operands preserves well-formedness, width and the value under every valuation, memory and operator interpretation.
+    (Without the one-width condition it does not: the width of an operator node is that of its FIRST operand.) *)
+Theorem C15_canonize_preserves_value : forall (Q : string -> Z -> bool -> bool -> bool) e, wf Q e = true ->
+  wf Q (canonize e) = true /\ size (canonize e) = size e /\ forall rho mu iota, eval rho mu iota (canonize e) = eval rho mu iota e.
+Proof. exact canonize_preserves. Qed.
+Print Assumptions C15_canonize_preserves_value.
+Example C15_canonize_width_refuted : exists e rho, eval rho (fun _ => 0) (fun _ _ => 0) (canonize e) <> eval rho (fun _ => 0) (fun _ _ => 0) e.
+Proof.
+  exists (EOp "+" [EId "b" 32 false false; EId "a" 8 false false]), (fun n => if (n =? "a")%string then 1 else 255).
+  vm_compute. discriminate.
+Qed.
